@@ -189,7 +189,7 @@ class TextGen(object):
   def k_error_value(self):
     return self.r.choice(['1 / 0', '$A / 0', 'undefined_name', '$Nope', 'rec.Nope + 1', '$B + 1', 'int("x")', '[][$A]', '{}["k"]', 'None.x',
                           'raise ValueError("v")\n1', 'x = 1 / 0\nx', 'def f():\n  raise KeyError(1)\nf()', 'assert $A < 0, "neg"\n1', '$B.nope()',
-                          'raise\n1', 'exit()', 'len(5)', '(lambda: 1 / 0)()'])
+                          'exit()', 'len(5)', '(lambda: 1 / 0)()'])
 
   def k_missing_return(self):
     return self.r.choice(['x = $A', 'x = $A\n', 'x = $A\ny = x', 'if $A:\n  x = 1', 'for k in range(2):\n  pass', 'pass', 'x = $A\nx += 1',
